@@ -1523,6 +1523,10 @@ def container_method(I, obj, name):
             return obj
         if name in ('shape',):
             return (list_len(I, obj),)
+        if name == 'size' and obj.nd:
+            if obj.kind == 'clist' and any(is_list(x) for x in st.heap[obj]):
+                raise Unsupported('size of a 2-d array')
+            return list_len(I, obj)
         if name == 'dtype' and obj.nd:
             return TypeTag(nd_dtype(I, obj))
         if name == 'astype':
